@@ -14,6 +14,7 @@ mod master;
 mod net;
 mod quake;
 mod reader;
+mod real;
 mod settings;
 mod unreal2;
 mod valve;
@@ -36,6 +37,7 @@ fn entries() -> Vec<(&'static str, EntryFn)> {
     v.extend(games::entries());
     v.extend(idcheck::entries());
     v.extend(quake::entries());
+    v.extend(real::entries());
     v.extend(unreal2::entries());
     v
 }
